@@ -47,4 +47,7 @@ MUTANTS = [
     m("c16-twin-warmup-cond-flipped", None, SG, "        if n_warm_up_iter > 0:\n            warm_up_trace_funcs = trace_funcs if trace_warm_up else None\n            sampling_stages[\"Adaptive warm up\"]", "        if 0 < n_warm_up_iter:\n            warm_up_trace_funcs = trace_funcs if trace_warm_up else None\n            sampling_stages[\"Adaptive warm up\"]", twin=True),
     m("c16-update-skipped-without-stats", "R2", SA, "                    state, trans_stats = transition.sample(state, rng)\n                    if adapters is not None and trans_key in adapters:", "                    state, trans_stats = transition.sample(state, rng)\n                    if trans_stats is None:\n                        continue\n                    if adapters is not None and trans_key in adapters:", key="adapter.update:condition"),
     m("c16-record-stats-from-trace-funcs", "R1", SG, "            record_stats = trace_warm_up\n            # initial fast adaptation stage", "            record_stats = warm_up_trace_funcs is not None\n            # initial fast adaptation stage", key="record_stats"),
+    {'id': 'c16-stages-restart-from-initial-states', 'prop': 'C16', 'rule': 'R5', 'edits': [{'file': 'samplers.py', 'old': '                            init_state=chain_states,\n', 'new': '                            init_state=init_states,\n'}], 'key': 'iteration-count'},
+    {'id': 'c16-finalize-with-initial-states', 'prop': 'C16', 'rule': 'R5', 'edits': [{'file': 'samplers.py', 'old': '                            adapter_states,\n                            chain_states,\n                            stage.adapters,', 'new': '                            adapter_states,\n                            init_states,\n                            stage.adapters,'}], 'key': 'finalize-chain-states'},
+    {'id': 'c16-twin-sequential-index-loop', 'prop': 'C16', 'rule': None, 'edits': [{'file': 'samplers.py', 'old': '    for chain_index, (chain_iterator, chain_kwargs) in enumerate(\n        zip(chain_iterators, per_chain_kwargs, strict=True),\n    ):', 'new': '    pairs = list(zip(chain_iterators, per_chain_kwargs, strict=True))\n    for chain_index in range(len(pairs)):\n        chain_iterator, chain_kwargs = pairs[chain_index]'}], 'twin': True},
 ]
